@@ -116,10 +116,91 @@ def stub_token_bytes(n=None):
 
 # --------------------------------------------------------------------------------- log2 / floor / ceil
 class Log2Val:
+    """math.log2(n) / div for a symbolic integer n >= 1 and a concrete positive integer div.  The float result r of
+    log2 is known through its contract only: k <= r <= k+1 for 2^k <= n < 2^(k+1) (k and k+1 are floats and rounding is
+    monotone), r = k exactly for n = 2^k, and below 2^40 the result is exact enough that r is an integer only for powers of
+    two.  Above, r may be rounded to either neighbouring integer (lv = k or k+1) - which one the real libm picks for a
+    counterexample / witness is pinned by `log2_facts` / `witness_refinement` from the real math.log2."""
     _sx_symbolic = True
 
-    def __init__(self, n):
+    def __init__(self, n, div=1):
         self.n = n
+        self.div = div
+
+    def __truediv__(self, c):
+        if isinstance(c, int) and not isinstance(c, bool) and c > 0:
+            return Log2Val(self.n, self.div * c)
+        eng().fail(Unsupported, 'log2(symbolic) divided by a non-constant')
+
+    def parts(self):
+        """(lv, isint): lv = floor(r) as SymInt, isint = (r is an integer) as z3 Bool"""
+        e = eng()
+        n = self.n
+        maxb = CONFIG.log2_max_bits
+        if n.mag is not None and n.mag + 1 < maxb:
+            maxb = n.mag + 1
+        if mk_bool(n.t >= 2 ** maxb):
+            e.fail(BoundExceeded, f'log2 of an integer of more than {maxb} bits')
+        key = ('log2', n.t.get_id())
+        hit = e.run_cache.get(key)
+        if hit is not None and hit[0].eq(n.t):
+            return hit[1], hit[2]
+        lv = e.fresh_int('log2')
+        isint = e.fresh_bool('log2int')
+        # locate the byte-length class of n by binary search (decisions), then 8 cases inside it
+        lo, hi = 0, (maxb + 7) // 8
+        while hi - lo > 1:
+            mid = (lo + hi) // 2
+            if e.decide(n.t < 256 ** mid):
+                hi = mid
+            else:
+                lo = mid
+        cases = []
+        for k in range(8 * lo, min(8 * hi, maxb)):
+            rng = z3.And(n.t >= 2 ** k, n.t < 2 ** (k + 1))
+            if k < EXACT_LOG2_BITS:
+                cases.append(z3.And(rng, lv == k, isint == (n.t == 2 ** k)))
+            else:
+                cases.append(z3.And(rng, z3.Or(z3.And(lv == k, z3.Implies(n.t == 2 ** k, isint)), z3.And(lv == k + 1, isint))))
+        e.add(z3.Or(*cases))
+        res = SymInt(lv)
+        CONFIG.log2_apps.append((n.t, lv, isint))
+        e.run_cache[key] = (n.t, res, isint)
+        return res, isint
+
+    # comparisons of r / div with an integer-valued o:  r ? o * div
+    def _cmp(self, o, kind):
+        if not isinstance(o, (int, SymInt)) or isinstance(o, bool):
+            eng().fail(Unsupported, f'log2(symbolic) compared with {type(o).__name__}')
+        lv, isint = self.parts()
+        m = (o.t if isinstance(o, SymInt) else z3.IntVal(o)) * self.div
+        t = {'gt': z3.Or(lv.t > m, z3.And(lv.t == m, z3.Not(isint))),
+             'ge': lv.t >= m,
+             'lt': lv.t < m,
+             'le': z3.Or(lv.t < m, z3.And(lv.t == m, isint)),
+             'eq': z3.And(lv.t == m, isint)}[kind]
+        return mk_bool(t)
+
+    def __gt__(self, o):
+        return self._cmp(o, 'gt')
+
+    def __ge__(self, o):
+        return self._cmp(o, 'ge')
+
+    def __lt__(self, o):
+        return self._cmp(o, 'lt')
+
+    def __le__(self, o):
+        return self._cmp(o, 'le')
+
+    def __eq__(self, o):
+        return self._cmp(o, 'eq')
+
+    def __ne__(self, o):
+        from .core import sym_not
+        return sym_not(self._cmp(o, 'eq'))
+
+    __hash__ = None
 
 
 def stub_log2(x):
@@ -137,38 +218,8 @@ EXACT_LOG2_BITS = 40
 
 def stub_floor(x):
     if isinstance(x, Log2Val):
-        e = eng()
-        n = x.n
-        maxb = CONFIG.log2_max_bits
-        if n.mag is not None and n.mag + 1 < maxb:
-            maxb = n.mag + 1
-        if mk_bool(n.t >= 2 ** maxb):
-            e.fail(BoundExceeded, f'log2 of an integer of more than {maxb} bits')
-        key = ('log2', n.t.get_id())
-        hit = e.run_cache.get(key)
-        if hit is not None and hit[0].eq(n.t):
-            return hit[1]
-        lv = e.fresh_int('log2')
-        # locate the byte-length class of n by binary search (decisions), then 8 cases inside it
-        lo, hi = 0, (maxb + 7) // 8
-        while hi - lo > 1:
-            mid = (lo + hi) // 2
-            if e.decide(n.t < 256 ** mid):
-                hi = mid
-            else:
-                lo = mid
-        cases = []
-        for k in range(8 * lo, min(8 * hi, maxb)):
-            rng = z3.And(n.t >= 2 ** k, n.t < 2 ** (k + 1))
-            if k < EXACT_LOG2_BITS:
-                cases.append(z3.And(rng, lv == k))
-            else:
-                cases.append(z3.And(rng, z3.Or(lv == k, lv == k + 1)))
-        e.add(z3.Or(*cases))
-        res = SymInt(lv)
-        CONFIG.log2_apps.append((n.t, lv))
-        e.run_cache[key] = (n.t, res)
-        return res
+        lv, _ = x.parts()
+        return lv if x.div == 1 else lv // x.div
     if isinstance(x, SymRatio):
         return x.num // x.den
     if isinstance(x, (SymInt, int)) and not isinstance(x, bool):
@@ -180,7 +231,10 @@ def stub_ceil(x):
     if isinstance(x, SymRatio):
         return -((-x.num) // x.den)
     if isinstance(x, Log2Val):
-        eng().fail(Unsupported, 'ceil(log2(symbolic))')
+        lv, isint = x.parts()
+        d = x.div
+        q = z3.If(isint, -((-lv.t) / d), lv.t / d + 1)      # z3 integer division is floor division for d > 0
+        return SymInt(q)
     if isinstance(x, (SymInt,)):
         return x
     return math.ceil(x)
@@ -438,12 +492,30 @@ def install(pkg):
                               VerifyKey=StubVerifyKey, time=stub_time, nacl=nacl_ns, struct=StubStruct)
 
 
+def _real_log2_parts(nv):
+    r = math.log2(nv)
+    return math.floor(r), r == math.floor(r)
+
+
 def witness_refinement(model):
     """constraints that pin the nondeterministic stubs to what the real environment does for the values
     of `model` (so that a witness replay compares like with like); [] if nothing to pin"""
     out = []
-    for n, lv in CONFIG.log2_apps:
+    for n, lv, isint in CONFIG.log2_apps:
         nv = model.eval(n, model_completion=True).as_long()
         if nv >= 1:
-            out.append(lv == math.floor(math.log2(nv)))
+            rl, ri = _real_log2_parts(nv)
+            out.append(z3.And(lv == rl, isint == ri))
+    return out
+
+
+def log2_facts(model):
+    """true facts about the real math.log2 at the argument values of `model`, as implications (sound to add to any
+    query): used to refine a counterexample until it agrees with the real libm"""
+    out = []
+    for n, lv, isint in CONFIG.log2_apps:
+        nv = model.eval(n, model_completion=True).as_long()
+        if nv >= 1:
+            rl, ri = _real_log2_parts(nv)
+            out.append(z3.Implies(n == nv, z3.And(lv == rl, isint == ri)))
     return out
